@@ -52,13 +52,17 @@ SpecStr == [c \in SpecChars |-> SpecTable[SpecImg[c]][2]]
 
 (* gcvIdChars / gcvIdCharc: alphanumerics unchanged (width 1), table characters replaced   *)
 (* by their string, every other character NOT_PRINTABLE: dropped, width 0                  *)
-Img(c)   == IF c \in AlnumSet THEN <<c>> ELSE IF c \in SpecChars THEN SpecStr[c] ELSE <<>>
-Width(c) == Len(Img(c))
+ImgOf(c) == IF c \in AlnumSet THEN <<c>> ELSE IF c \in SpecChars THEN SpecStr[c] ELSE <<>>
 
 (* printable ASCII in code order 32..126, for strHash *)
 Ascii == <<" ","!","\"","#","$","%","&","'","(",")","*","+",",","-",".","/">> \o Digits \o
          <<":",";","<","=",">","?","@">> \o Upper \o <<"[","\\","]","^","_","`">> \o Lower \o <<"{","|","}","~">>
 CodeOf == [c \in Rng(Ascii) |-> 31 + (CHOOSE i \in 1..Len(Ascii) : Ascii[i] = c)]
+(* the two tables gc0InitSpecialChars fills, over the printable characters *)
+ImgTab   == [c \in Rng(Ascii) |-> ImgOf(c)]
+WidthTab == [c \in Rng(Ascii) |-> Len(ImgOf(c))]
+Img(c)   == ImgTab[c]
+Width(c) == WidthTab[c]
 
 ---------------------------------------------------------------------------
 (* strops.c:strHash.  h ^= h << 8; h += c + 200041; h &= 0x3FFFFFFF.  The shifted word is   *)
@@ -120,6 +124,7 @@ CONSTANTS Chars,        \* model alphabet (one-character strings)
           IdLens,       \* identifier limits explored
           HMod,         \* tiny hash: sum of character weights modulo HMod
           Indices,      \* indices of indexed entities
+          MaxIdxLen,    \* longest name given to indexed entities (their names follow kind, index and '_')
           MinIdLen      \* the least limit (other than 0) for which indexed entities are claimed distinct
 
 NamesUpTo(n) == UNION {[1..k -> Chars] : k \in 0..n}
@@ -188,7 +193,7 @@ GlobalWitness(il, ih) ==
 (* image sets of distinct (kind, index) must be pairwise disjoint, whatever the names.       *)
 IdxSet == {<<k, i>> : k \in IndexedKinds, i \in Indices} \cup {<<k, i>> : k \in VarIdKinds, i \in Indices}
 IdxImages(e, il) == IF e[1] \in VarIdKinds THEN {VarId(e[1], e[2], il)}
-                    ELSE {Mangle(e[1], e[2], n, il, TRUE, TinyH) : n \in Names}
+                    ELSE {MangleH(e[1], e[2], n, il, TRUE, 0) : n \in NamesUpTo(MaxIdxLen)}
 IndexedDisjoint(il) ==
   LET sets == [e \in IdxSet |-> IdxImages(e, il)]
   IN MapThenSumSet(LAMBDA e : Cardinality(sets[e]), IdxSet) = Cardinality(UNION {sets[e] : e \in IdxSet})
@@ -246,7 +251,7 @@ Sanity == (group = "hashfun" /\ Done) => verdict[1] /\ verdict[2] /\ verdict[3] 
 (* the statement of C16 for globals.  It does NOT hold of the code as written (the hash of  *)
 (* the full name is the only thing that separates two names with one truncated image):       *)
 (* configuration CNamesDistinct.cfg checks it and TLC reports the counterexample.            *)
-GlobalsDistinct == (group = "globals" /\ Done) => verdict[3] = 0
+GlobalsDistinct == (group = "globals" /\ Done /\ idhash /\ idlen >= 8) => verdict[3] = 0
 (* what does hold: with no limit, printable names are distinct *)
 GlobalsDistinctUnlimited == (group = "globals" /\ Done /\ idlen = 0) => verdict[3] = 0
 =============================================================================
